@@ -1863,12 +1863,25 @@ impl<'a, 'b> AuthorizedAccess<'a, 'b> {
         let _verif_subs = crate::verif::held(11, "acq Subs R", "rel Subs");
         let actuation_subscriptions = &read_subscription_guard.actuation_subscriptions;
 
+        // ids in the order in which the request names them
+        let mut vss_ids: Vec<i32> = Vec::new();
+        for actuation_change in &actuation_changes {
+            if !vss_ids.contains(&actuation_change.id) {
+                vss_ids.push(actuation_change.id);
+            }
+        }
         let actuation_changes_per_vss_id = &self
             .map_actuation_changes_by_vss_id(actuation_changes)
             .await;
-        for actuation_change_per_vss_id in actuation_changes_per_vss_id {
-            let vss_id = *actuation_change_per_vss_id.0;
-            let actuation_changes = actuation_change_per_vss_id.1.clone();
+
+        // Resolve the provider of every addressed actuator before forwarding anything:
+        // if one of them has no live provider, nothing of the batch is forwarded.
+        let mut resolved = Vec::with_capacity(vss_ids.len());
+        for vss_id in vss_ids {
+            let actuation_changes = match actuation_changes_per_vss_id.get(&vss_id) {
+                Some(actuation_changes) => actuation_changes.clone(),
+                None => continue,
+            };
 
             let opt_actuation_subscription = actuation_subscriptions
                 .iter()
@@ -1889,16 +1902,20 @@ impl<'a, 'b> AuthorizedAccess<'a, 'b> {
                         return Err((ActuationError::ProviderNotAvailable, message));
                     }
 
-                    actuation_subscription
-                        .actuation_provider
-                        .actuate(actuation_changes)
-                        .await?
+                    resolved.push((actuation_subscription, actuation_changes));
                 }
                 None => {
                     let message = format!("Provider for vss_id {} not available", vss_id);
                     return Err((ActuationError::ProviderNotAvailable, message));
                 }
             }
+        }
+
+        for (actuation_subscription, actuation_changes) in resolved {
+            actuation_subscription
+                .actuation_provider
+                .actuate(actuation_changes)
+                .await?
         }
 
         Ok(())
